@@ -99,7 +99,7 @@ Qed.
 Lemma send_tx_queue_Z now r0 e0 (s : vsock) :
   B now s -> J r0 e0 now s -> sp s -> ZW s -> stk (fun _ s' => ZW s') s (send_tx_queue cci s).
 Proof.
-  intros HB HJ [_ Hsp] HZ. rewrite send_tx_queue_eq.
+  intros HB HJ [_ [Hsp _]] HZ. rewrite send_tx_queue_eq.
   destruct (v_transport_pending s); [exact HZ|].
   set (h := outgoing_header s).
   destruct (rto_branch cci s h) as [s1 ret|s1 e|] eqn:Er; cbn [sbind stk]; auto.
